@@ -555,6 +555,9 @@ Arguments LSNone {CV E}.
 Section ObjCache.
   Variable data : list Z.               (* what the file / the parent holds *)
   Variable ro : bool.                   (* the cached array is read-only *)
+  Variable reuse : bool.                (* false: BasinProxyFeature.__array__, which
+                                           uses its cache on the first call only and
+                                           assembles a new array on every later call *)
 
   (* a view: base cell, selected positions of the base *)
   Definition view := (nat * list nat)%type.
@@ -601,11 +604,14 @@ Section ObjCache.
              pos' delta
     end.
 
-  (* __array__: load on first use *)
-  Definition ensure (s : ostate) : @heap (list Z) * nat :=
+  (* __array__: load on first use; -> (heap, the cache cell, the array that
+     this call of __array__ returns) *)
+  Definition ensure (s : ostate) : @heap (list Z) * nat * nat :=
     match o_array s with
-    | Some r => (o_heap s, r)
-    | None => halloc (o_heap s) data (negb ro)
+    | Some r =>
+        if reuse then (o_heap s, r, r)
+        else let '(h, b) := halloc (o_heap s) data true in (h, r, b)
+    | None => let '(h, r) := halloc (o_heap s) data (negb ro) in (h, r, r)
     end.
 
   Definition slice_pos (n : nat) (lo hi : Z) : list nat :=
@@ -616,17 +622,17 @@ Section ObjCache.
   Definition ostep (s : ostate) (o : oop) : ostate * oout :=
     match o with
     | ORead r =>
-        let '(h0, a) := ensure s in
+        let '(h0, a, b) := ensure s in
         let n := length data in
         let '(h1, v) :=
           match r with
-          | RdAll => (h0, (a, seq_from O n))
-          | RdSlice lo hi => (h0, (a, slice_pos n lo hi))
+          | RdAll => (h0, (b, seq_from O n))
+          | RdSlice lo hi => (h0, (b, slice_pos n lo hi))
           | RdFancy idx =>
               match select data (map Z.to_nat idx) with
               | Some l => let '(h, c) := halloc h0 l true in
                           (h, (c, seq_from O (length l)))
-              | None => (h0, (a, []))
+              | None => (h0, (b, []))
               end
           | RdCopy => let '(h, c) := halloc h0 data true in (h, (c, seq_from O n))
           end in
@@ -800,8 +806,8 @@ Definition enc_oout (o : oout) : list Z :=
   | OMutR ok => [5; if ok then 1 else 0]
   end.
 
-(* case = (ro, data, ops) *)
-Definition obj_flat (case : Z * list Z * list (Z * Z * Z * Z * list Z)) : list Z :=
-  let '(ro, data, ops) := case in
+(* case = (ro, reuse, data, ops) *)
+Definition obj_flat (case : Z * Z * list Z * list (Z * Z * Z * Z * list Z)) : list Z :=
+  let '(ro, reuse, data, ops) := case in
   flat_map enc_oout
-    (snd (orun data (negb (ro =? 0)) o_init (map dec_oop ops))).
+    (snd (orun data (negb (ro =? 0)) (negb (reuse =? 0)) o_init (map dec_oop ops))).
